@@ -155,7 +155,7 @@ C05_URLS = [
     "HTTP://AMP.EXAMPLE.COM/A/INDEX.HTML?UTM_SOURCE=X&K=V", "http://www2.m.example.com:80/amp?amp&amp_x=1&k=v&mode=amp&outputType=amp",
     "https://u@example.com/a%20b/c%2Fd?k=a%26b&j=%3D#x%20y", "http://example.com/a/?k", "http://example.com/a?=v&k=",
     "http://facebook.com/x?_rdr=1&k=v", "http://youtube.com/watch?v=abc&t=10&si=zz", "  http://example.com/x\x00y  ",
-    "http://example.com/a.amp/", "http://example.com/amp", "http://example.com/x/index.amp.html", "http://example.com/.index",
+    "http://example.com/a.amp/", "http://example.com/amp", "http://example.com/x/amp", "http://example.com/a/b/..", "http://example.com/a/.", "http://example.com/x/index.amp.html", "http://example.com/.index",
     "ftp://www.example.com/index.html", "http://example.com:8080", "http://example.com/static/default.min.css", "http://example.com/js/index.bundle.js?v=1",
     "http://example.com/a/index.php.bak", "http://example.com/a/index..html", "http://example.com/Index.html", "http://example.com/a/indexes.html", "http://example.com:81/?a=1&a=1&b",
     # strings the parser rejects or that have no host
